@@ -303,6 +303,19 @@ def ra_docs(tier, rng):
         for choice in stanza_sets[k]:
             for h in hdrs[:3]:
                 docs.append(C.document([C.table(**dict(h, **{k: choice}))]))
+    # element counts 0..9 for every list the build copies or extends (a slice with spare capacity that is extended
+    # in place only shows up for particular lengths, and only from the second build on)
+    srv = ["2001:db8::%x" % (0x50 + i) for i in range(9)]
+    for n in range(0, 10):
+        docs.append(C.document([C.table(rdnss_=[D(["::"] + srv[:n], K("val", 1500))])]))
+        if n:
+            docs.append(C.document([C.table(rdnss_=[D(srv[:n])])]))
+            docs.append(C.document([C.table(rdnss_=[D(srv[:n] + ["::"])], dnssl_=[L(["n%d.example" % i for i in range(n)])])]))
+            docs.append(C.document([C.table(prefixes=[P()] + [P("2001:db8:%x::/64" % i) for i in range(n)],
+                                            routes=[R()] + [R("2001:db8:%x::/48" % (0xf0 + i)) for i in range(n)])]))
+            docs.append(C.document([C.table(prefixes=[P("2001:db8:%x::/64" % i) for i in range(n)] + [P("2001:db8::/56")],
+                                            routes=[R("2001:db8:%x::/48" % (0xf0 + i)) for i in range(n)] + [R()],
+                                            rdnss_=[D(["::"] + srv[:n]), D(srv[:n])])]))
     for j in range(4000 if thorough else 500):
         kw = dict(rng.choice(hdrs))
         for k in keys:
